@@ -18,6 +18,7 @@ import (
 	"strconv"
 	"sync"
 	"testing/synctest"
+	"time"
 
 	vfhook "github.com/Cloud-Foundations/keymaster/zz_vfhook"
 )
@@ -245,6 +246,9 @@ func (s *vfSched) runGroup(names []string, fns []func()) {
 }
 
 func (s *vfSched) runOne(name string, fn func()) {
+	// a request never arrives in the same instant the previous response left:
+	// minimal simulated network latency
+	time.Sleep(3 * time.Millisecond)
 	fn()
 	synctest.Wait()
 }
